@@ -340,6 +340,7 @@ class Unit:
         self.sources = {}
         self.vac_ids = []
         self.lemmas = []
+        self.flags = set()
 
     def emit(self, text, origin):
         if text:
@@ -741,7 +742,15 @@ class Unit:
                 continue
             d = st[3:]
             origin = f"{rel}:{i + 1}"
-            if d.startswith("include "):
+            if d.startswith("set "):
+                self.flags.add(d[4:].strip())
+                i += 1
+            elif d.startswith("include-if "):
+                flag, path_ = d[11:].strip().split(None, 1)
+                if flag in self.flags:
+                    self.process(os.path.join(VERIF, "units", path_.strip()), depth + 1)
+                i += 1
+            elif d.startswith("include "):
                 inc = os.path.join(VERIF, "units", d[8:].strip())
                 self.process(inc, depth + 1)
                 i += 1
